@@ -74,6 +74,10 @@ func TestC08Quarantine(t *testing.T) {
 		detections, midBlock, inflightIntoQuarantined, newerChecked, olderChecked, overlapChecked := 0, 0, 0, 0, 0, 0
 
 		corruptAndDetect := func(t *rapid.T) {
+			// No existence check may be parked in a refresh copy across the
+			// corruption: its copy would be the detecting read. (Existence
+			// checks overlapping the detection are generated below.)
+			w.FinishPendingFM()
 			// Pick a readable object of size >= 2 and find where it is served from.
 			var cands []placed
 			var locs []local.Location
@@ -239,6 +243,10 @@ func TestC08Quarantine(t *testing.T) {
 			} else {
 				r = w.Get(victim.o, victim.inst)
 			}
+			// An existence check parked in a refresh copy that was opened
+			// before the detection completes now: its validated copy into a
+			// new block is a legitimate newer copy.
+			w.FinishPendingFM()
 			detectedDespiteEnvError := false
 			if !r.Found && w.St.Alloc.NewBlockFailures != allocFailsBefore {
 				msgs := w.St.ErrLog.Take()
